@@ -115,6 +115,10 @@ func ValidateResponse(ctx context.Context, input *ResponseValidationInput) error
 
 	// Read response's body.
 	body := input.Body
+	if body == nil {
+		// no body was handed over: validate it as the empty body it is
+		body = http.NoBody
+	}
 
 	// Response would contain partial or empty input body
 	// after we begin reading.
